@@ -8,6 +8,7 @@
 package main
 
 import (
+	"bytes"
 	stdjson "encoding/json"
 	"errors"
 	"fmt"
@@ -757,6 +758,34 @@ func runOmit(w *run.W, a *omitArgs) {
 		w.Violate("omit-marshal-error", map[string]string{"opt": a.Opt}, "fields %+v: Marshal failed: %v", a.Fields, err)
 		return
 	}
+	// the same decision must be taken on the writer routes, where written members are retracted from a
+	// buffer that may have been flushed in between (a padded document moves the flush points around)
+	{
+		pad := strings.Repeat("p", int(fnvStr(fmt.Sprint(a.Fields))%97))
+		wrapped := struct {
+			Pad string `json:"pad"`
+			V   any    `json:"v"`
+		}{pad, val}
+		want, err1 := json.Marshal(wrapped, opts...)
+		var ow omitWriter
+		err2 := json.MarshalWrite(&ow, wrapped, append(append([]json.Options{}, opts...), jsontext.Multiline(true))...)
+		var ow2 omitWriter
+		e := jsontext.NewEncoder(&ow2, jsontext.SpaceAfterComma(true))
+		err3 := json.MarshalEncode(e, wrapped, opts...)
+		if err1 == nil {
+			wn := ref.Parse(want, ref.Opts{})
+			for i, got := range [][]byte{ow.b, ow2.b} {
+				gerr := [2]error{err2, err3}[i]
+				gn := ref.Parse(bytes.TrimSpace(got), ref.Opts{})
+				if gerr != nil || gn == nil || wn == nil || string(ref.Compact(gn)) != string(ref.Compact(wn)) {
+					w.Violate("omit-presence", map[string]string{"class": "writer-route-differs", "route": [2]string{"MarshalWrite+Multiline", "MarshalEncode+SpaceAfterComma"}[i]},
+						"fields %+v: Marshal gives %s, the writer route gives %s (err=%v)", a.Fields, want, run.Trunc(string(got), 600), gerr)
+					break
+				}
+			}
+			w.Count("omit_writer_routes_compared", 2)
+		}
+	}
 	n := ref.Parse(out, ref.Opts{})
 	if n == nil || n.Kind != ref.Object {
 		w.Violate("omit-marshal-error", map[string]string{"opt": a.Opt}, "fields %+v: output %s is not an object", a.Fields, out)
@@ -895,8 +924,9 @@ func runV1(w *run.W, a *v1Args) {
 				// v1 versus classic is property C09's subject, not C15's: C15 only promises the documented v2 rules
 				// (under v1's legacy error semantics an ambiguous folded match is documented to pick a field silently).
 				// Observed and counted here, reported by the C09 monitor (finding F20).
+				// (was the known C09 finding F20 until its repair e340083; with the repair in place v1 and
+				// classic agree, and the documented v1 rule "the first declared field is used" is demanded again)
 				w.Count("v1_fold_order_divergences", 1)
-				continue
 			}
 			w.Violate("v1-classic-differs", map[string]string{"side": "unmarshal", "class": class}, "type %s: name %q is stored into %q by classic encoding/json (ok=%v) and into %q by v1 (ok=%v)", a.Type, name, ch, cok, vh, vok)
 		}
@@ -1055,6 +1085,7 @@ func main() {
 	run.Def(M, "omit", runOmit)
 	run.Def(M, "v1", runV1)
 	run.Def(M, "legacy-continue", runLegacyContinue)
+	run.Def(M, "reuse-decoder", runReuseDecoder)
 	M.Gen = generate
 	run.Main(M)
 }
@@ -1187,9 +1218,23 @@ func wideStruct(r *rand.Rand, n int) string {
 	return gen.Struct(top...)
 }
 
+// omitWriter is an opaque io.Writer (not a *bytes.Buffer).
+type omitWriter struct{ b []byte }
+
+func (o *omitWriter) Write(p []byte) (int, error) { o.b = append(o.b, p...); return len(p), nil }
+
+func fnvStr(s string) uint64 {
+	var h uint64 = 1469598103934665603
+	for i := 0; i < len(s); i++ {
+		h = (h ^ uint64(s[i])) * 1099511628211
+	}
+	return h
+}
+
 func generate(w *run.W) {
 	lci := 0
 	genLegacyContinue(w, func() bool { lci++; return w.Mine(lci) })
+	genReuseDecoder(w, func() bool { lci++; return w.Mine(lci) })
 	nb := w.Pick(1200, 6000)
 	for b := 0; b < nb; b++ {
 		if !w.Mine(b) {
